@@ -387,7 +387,7 @@ def swap_items(self, classes):
     """
 
     new_values = self._values_
-    len_shape = new_values.ndim
+    len_shape = np.ndim(new_values)
 
     for r in range(self._nrank_):
         new_values = np.rollaxis(new_values, -self._rank_, len_shape)
